@@ -1,10 +1,217 @@
 (* Props/C14.v -- property theorems for C14 (a Job finishes exactly once).
-   Only statements; every proof is `exact <lemma>`; Print Assumptions under each. *)
+   Only statements; every proof is `exact <lemma>`; Print Assumptions under each.
+
+   Vocabulary (Model/Job.v, Model/JobSched.v).  [step] is ONE atomic step of one call of
+   Task / newJobID / handle / Cancel / Wait / IsDone / Jobs / Job / hasJob / accept / frag: one
+   critical section of Session.lock or one unlocked access; the same [step] is what `check`
+   evaluates on every generated case (through [apply_op], theorem C14_solo_is_schedule).
+   A history is a list of events [Spawn o] (a new thread starts operation o) and [Run t]
+   (thread t takes its next atomic step); [run es] executes a history from the empty session.
+   Every theorem quantifies over ALL histories: any number of threads, any multiset of
+   operations, any interleaving, any length. *)
 From XMT Require Import Base.Prelude Model.JobSched Model.Job Proofs.Job.
 
+(* ---- done_closed_once: nothing panics ------------------------------------------------------ *)
+(* Every history (all eleven operations, concurrent Task calls included) runs to its end: no
+   step closes a closed or nil channel. *)
+Theorem C14_done_closed_once : forall es, exists c, run es = Ok c.
+Proof. exact run_total. Qed.
+Print Assumptions C14_done_closed_once.
+
+Theorem C14_no_panic : forall es, run es <> Panic.
+Proof. exact run_no_panic. Qed.
+Print Assumptions C14_no_panic.
+
+(* ---- waiters_released ------------------------------------------------------------------------ *)
+(* In every reachable state, a job that has left the table (and was not overwritten by a
+   concurrent Task, see the finding below) has done = nil, and a thread blocked in Wait on it
+   returns at its very next step. *)
+Theorem C14_waiters_released : forall es c h j t p,
+  run es = Ok c -> getj (snd c) h = Some j -> jorph j = false -> ~ tracked (snd c) h ->
+  finished (snd c) h /\
+  (nth_error (fst c) t = Some p -> p = PW0 h \/ p = PW1 h ->
+   exec step init_pc (Run t) c = Ok (upd (fst c) t (PDone RUnit), snd c)).
+Proof. exact waiters_released. Qed.
+Print Assumptions C14_waiters_released.
+
+(* Wait never returns early: a thread started as Wait(h) on an existing job, at any point of any
+   history, has returned only if the job is finished. *)
+Theorem C14_wait_returns_only_when_finished : forall es1 es2 c1 c2 h r,
+  run es1 = Ok c1 -> (h < length (jobs (snd c1)))%nat ->
+  run_from c1 (Spawn (OWait h) :: es2) = Ok c2 ->
+  nth_error (fst c2) (length (fst c1)) = Some (PDone r) -> finished (snd c2) h.
+Proof. exact wait_returns_only_finished. Qed.
+Print Assumptions C14_wait_returns_only_when_finished.
+
+(* IsDone answers true only for a finished job. *)
+Theorem C14_isdone_true_only_when_finished : forall es1 es2 c1 c2 h,
+  run es1 = Ok c1 -> (h < length (jobs (snd c1)))%nat ->
+  run_from c1 (Spawn (OIsDone h) :: es2) = Ok c2 ->
+  nth_error (fst c2) (length (fst c1)) = Some (PDone (RBool true)) -> finished (snd c2) h.
+Proof. exact isdone_true_finished. Qed.
+Print Assumptions C14_isdone_true_only_when_finished.
+
+(* Finished is for ever (the channel is released once and stays released). *)
+Theorem C14_finished_forever : forall es1 es2 c1 c2 h,
+  run es1 = Ok c1 -> run_from c1 es2 = Ok c2 -> finished (snd c1) h -> finished (snd c2) h.
+Proof. exact finished_forever. Qed.
+Print Assumptions C14_finished_forever.
+
+(* ---- leaves_table --------------------------------------------------------------------------- *)
+(* A finished job is in the table under no number; whatever the table holds is pending. *)
+Theorem C14_leaves_table : forall es c h,
+  run es = Ok c ->
+  (finished (snd c) h -> ~ tracked (snd c) h) /\ (tracked (snd c) h -> pending (snd c) h).
+Proof. exact leaves_table. Qed.
+Print Assumptions C14_leaves_table.
+
+(* Cancel, once it has returned, leaves the job finished and out of the table (whoever finished it). *)
+Theorem C14_cancel_finishes : forall es1 es2 c1 c2 h r,
+  run es1 = Ok c1 -> (h < length (jobs (snd c1)))%nat ->
+  run_from c1 (Spawn (OCancel h) :: es2) = Ok c2 ->
+  nth_error (fst c2) (length (fst c1)) = Some (PDone r) ->
+  finished (snd c2) h /\ ~ tracked (snd c2) h.
+Proof. exact cancel_returns_finished. Qed.
+Print Assumptions C14_cancel_finishes.
+
+(* ---- status_first_event ---------------------------------------------------------------------- *)
+(* Histories of the operations of the property (everything but accept / frag).  Take the step of
+   thread t after which job h is finished for the first time (it was pending before): that
+   thread is in the critical section of a result for h (status completed / error, Result = that
+   packet) or of a Cancel of h (status canceled, no Result); the job has exactly that status
+   and result, is out of the table, and whatever history follows it is still the very same job
+   record at the end. *)
+Theorem C14_status_first_event : forall es1 t es2 c1 c2 c3 h,
+  forallb c14_ev (es1 ++ Run t :: es2) = true ->
+  run es1 = Ok c1 -> exec step init_pc (Run t) c1 = Ok c2 -> run_from c2 es2 = Ok c3 ->
+  pending (snd c1) h -> finished (snd c2) h ->
+  exists p st r j, nth_error (fst c1) t = Some p /\ commit p = Some (h, st, r) /\
+    getj (snd c2) h = Some j /\ jstatus j = st /\ final st /\
+    jres j = match r with Some tag => tag | None => 0 end /\
+    getj (snd c3) h = Some j /\ ~ tracked (snd c3) h.
+Proof. exact status_first_event. Qed.
+Print Assumptions C14_status_first_event.
+
+(* In every reachable state of such histories a job is pending with status waiting and no
+   result, or finished with a final status. *)
+Theorem C14_status_pending_or_final : forall es c h j,
+  forallb c14_ev es = true -> run es = Ok c -> getj (snd c) h = Some j ->
+  (pending (snd c) h /\ jstatus j = StWaiting /\ jres j = 0 /\ jerr j = false) \/
+  (finished (snd c) h /\ final (jstatus j)).
+Proof. exact status_pending_final. Qed.
+Print Assumptions C14_status_pending_or_final.
+
+(* accept / frag are outside the quantifier for a reason: they write Job.Status after dropping
+   the lock, so racing a result they can overwrite the final status (observation, see notes). *)
+Theorem C14_accept_race_observation :
+  exists es c j, run es = Ok c /\ getj (snd c) 0%nat = Some j /\ jdone j = Nil /\ jstatus j = StAccepted.
+Proof. exact accept_overwrites_final_status. Qed.
+Print Assumptions C14_accept_race_observation.
+
+(* ---- unknown_result_ignored ------------------------------------------------------------------ *)
+(* Any step, at any time, of a result-arrival thread (packet: well-formed flag wf, job number
+   id, error flag, tag) either changes nothing at all, or the packet is well formed, id >= 2,
+   the table holds a pending job under id at that very moment, and exactly that job is
+   finished with the packet's status and result and taken out of the table. *)
+Theorem C14_result_attribution : forall es1 es2 c1 c2 c3 wf id err tag,
+  run es1 = Ok c1 -> run_from c1 (Spawn (OHandle wf id err tag) :: es2) = Ok c2 ->
+  exec step init_pc (Run (length (fst c1))) c2 = Ok c3 ->
+  snd c3 = snd c2 \/
+  (wf = true /\ 2 <= id /\ exists h j,
+     lookup id (table (snd c2)) = Some h /\ getj (snd c2) h = Some j /\ jdone j = Open /\
+     snd c3 = set_table (setj (snd c2) h (fin_job j (if err then StError else StCompleted) tag err))
+                        (remove id (table (snd c2)))).
+Proof. exact result_attribution_run. Qed.
+Print Assumptions C14_result_attribution.
+
+(* ... in particular a result whose number is not in the table (unknown, already completed,
+   cancelled), or that is malformed, or numbered 0 / 1, changes no job and not the table. *)
+Theorem C14_unknown_result_ignored : forall es1 es2 c1 c2 c3 wf id err tag,
+  run es1 = Ok c1 -> run_from c1 (Spawn (OHandle wf id err tag) :: es2) = Ok c2 ->
+  exec step init_pc (Run (length (fst c1))) c2 = Ok c3 ->
+  mem id (table (snd c2)) = false \/ wf = false \/ id < 2 ->
+  snd c3 = snd c2.
+Proof. exact unknown_result_ignored_run. Qed.
+Print Assumptions C14_unknown_result_ignored.
+
+(* ---- job_id_fresh ----------------------------------------------------------------------------- *)
 (* newJobID: whatever the random draws, the number returned is 0 (refusal: Task then fails) or
    greater than 1, a uint16, and not a key of the table at the time of the check. *)
 Theorem C14_job_id_fresh :
   forall draws t i, new_job_id draws t = i -> i = 0 \/ (1 < i < 65536 /\ mem i t = false).
 Proof. exact new_job_id_fresh. Qed.
 Print Assumptions C14_job_id_fresh.
+
+(* Task with n.Job = 0 goes on only with such a number. *)
+Theorem C14_task_alloc_fresh : forall draws full s i full' s',
+  step (PTask0 0 draws full) s = Ok (PTask1 i full', s') ->
+  1 < i < 65536 /\ mem i (table s) = false /\ s' = s.
+Proof. exact task_alloc_fresh. Qed.
+Print Assumptions C14_task_alloc_fresh.
+
+(* Full statement (FALSE on the code, recorded finding concurrent-task-id-reuse):
+     forall es c t id, run es = Ok c -> nth_error (fst c) t = Some (PTask3 id) ->
+       mem id (table (snd c)) = false
+   i.e. the number Task inserts is never a pending job's.  Honest variant: it holds, and no job
+   is ever overwritten, so "tracked <-> pending" for every job, when no two Task calls with the
+   same number are between their check and their insert at the same time (sequential Task calls
+   in particular); everything else may interleave freely. *)
+Theorem C14_task_no_reuse_partial : forall es c t id,
+  tasks_serial cfg0 es -> run es = Ok c -> nth_error (fst c) t = Some (PTask3 id) ->
+  mem id (table (snd c)) = false.
+Proof. exact serial_insert_fresh. Qed.
+Print Assumptions C14_task_no_reuse_partial.
+
+Theorem C14_tracked_iff_pending_partial : forall es c h,
+  tasks_serial cfg0 es -> run es = Ok c ->
+  ~ orphaned (snd c) h /\ (tracked (snd c) h <-> pending (snd c) h).
+Proof. exact serial_tracked. Qed.
+Print Assumptions C14_tracked_iff_pending_partial.
+
+(* Witness: two concurrent Task(7): both pass the check, both insert; job 0 is overwritten, stays
+   pending, is not in the table; the result for 7 completes job 1; a waiter of job 0 stays blocked. *)
+Theorem C14_task_id_race_refuted :
+  exists es c, run es = Ok c /\ ~ tasks_serial cfg0 es /\
+    orphaned (snd c) 0%nat /\ pending (snd c) 0%nat /\ ~ tracked (snd c) 0%nat /\
+    finished (snd c) 1%nat /\ nth_error (fst c) 3%nat = Some (PW1 0%nat).
+Proof. exact task_id_race_refuted. Qed.
+Print Assumptions C14_task_id_race_refuted.
+
+(* ---- the theorems are about what the correspondence run evaluates --------------------------- *)
+(* apply_op (the function `check` runs on every step of every generated case) is the history
+   "spawn the operation, let it run alone" of the same [step]. *)
+Theorem C14_solo_is_schedule : forall o s r s' (ps : list pc),
+  apply_op o s = Ok (r, s') ->
+  exists p', run_from (ps, s) (Spawn o :: repeat (Run (length ps)) 8) = Ok (ps ++ [p'], s') /\
+             (p' = PDone r \/ r = RBlocked).
+Proof. exact solo_is_schedule. Qed.
+Print Assumptions C14_solo_is_schedule.
+
+(* ---- the pinned code (before the two repairs) fails these statements ------------------------ *)
+Theorem C14_pinned_double_close_refuted : exists es, pinned_run es = Panic.
+Proof. exact pinned_double_close_refuted. Qed.
+Print Assumptions C14_pinned_double_close_refuted.
+
+Theorem C14_pinned_cancel_status_refuted :
+  exists es c j, pinned_run es = Ok c /\ getj (snd c) 0%nat = Some j /\
+                 jdone j = Nil /\ jstatus j = StWaiting.
+Proof. exact pinned_cancel_status_refuted. Qed.
+Print Assumptions C14_pinned_cancel_status_refuted.
+
+(* ---- non-vacuity: result || Cancel || Cancel, three threads racing on one job ----------------- *)
+(* Task(7) alone; then a result, a Cancel and another Cancel interleaved so that the first Cancel
+   wins: the result is refused (false), status canceled, no Result, table empty, all returned. *)
+Example C14_nonvacuous_cancel_first :
+  run race3_hist =
+  Ok ([PDone (RJob 0%nat); PDone (RBool false); PDone RUnit; PDone RUnit],
+      mkSess [mkJob 7 StCanceled Nil 0 false 0 false] []).
+Proof. exact race3_result. Qed.
+Print Assumptions C14_nonvacuous_cancel_first.
+
+(* the same threads with the (error) result first: status error, Result = the packet *)
+Example C14_nonvacuous_result_first :
+  run race3b_hist =
+  Ok ([PDone (RJob 0%nat); PDone (RBool true); PDone RUnit; PDone RUnit],
+      mkSess [mkJob 7 StError Nil 1 true 0 false] []).
+Proof. exact race3b_result. Qed.
+Print Assumptions C14_nonvacuous_result_first.
